@@ -279,7 +279,11 @@ def calls_case(seed, nsteps=8, spec_kind="random"):
         return out
     graphs_raw = base.ExperimentRecord(episodes=recs).to_graph()
     for mode in ("MCS", "GENERATIONAL"):
-        g = rt.compile_graph(run.nodes, run.sup, graphs_raw, mode=mode, prune=True)
+        try:
+            g = rt.compile_graph(run.nodes, run.sup, graphs_raw, mode=mode, prune=True)
+        except rt.CompileUnsupported as ex:
+            out.setdefault("unsupported", []).append(f"{mode}: {ex}")
+            continue
         tim = rt.timings_to_dict(g.timings)
         gs = g.init(rng=jax.random.PRNGKey(spec["seed"]), starting_eps=0)
         nrun = min(g.max_steps, 5)
@@ -381,7 +385,11 @@ def record_case(seed, nsteps=8):
     try:
         g = rt.compile_graph(run.nodes, run.sup, graphs_raw, mode=mode, prune=rng.random() < 0.7)
     except rt.CompileUnsupported:
-        g = rt.compile_graph(run.nodes, run.sup, graphs_raw, mode=mode, prune=True)
+        try:
+            g = rt.compile_graph(run.nodes, run.sup, graphs_raw, mode=mode, prune=True)
+        except rt.CompileUnsupported as ex:
+            out["unsupported"] = str(ex)
+            return out
     tim = rt.timings_to_dict(g.timings)
     gs0 = g.init(rng=jax.random.PRNGKey(spec["seed"]), starting_eps=0)
     gs0 = gs0.replace(rng=run.gs0.rng, state=run.gs0.state, params=run.gs0.params)
@@ -486,7 +494,10 @@ def api_case(seed, nsteps=8):
     try:
         g = rt.compile_graph(run.nodes, run.sup, graphs_raw, mode=mode, prune=rng.random() < 0.7)
     except rt.CompileUnsupported:
-        g = rt.compile_graph(run.nodes, run.sup, graphs_raw, mode=mode, prune=True)
+        try:
+            g = rt.compile_graph(run.nodes, run.sup, graphs_raw, mode=mode, prune=True)
+        except rt.CompileUnsupported as ex:
+            return dict(skipped=f"unsupported: {ex}", spec=spec)
     sup = run.sup.name
     out = dict(spec=spec, feats=sorted(rt.spec_features(spec)), mode=mode, max_eps=int(g.max_eps), max_steps=int(g.max_steps), diffs=[], checks=0)
     key = jax.random.PRNGKey(spec["seed"])
